@@ -15,6 +15,7 @@
 (*   build      (src, res [, tree])        precompilation only             *)
 (*   deep       (family, len, res)         a maximal-nesting input: totality*)
 (*   errmsg     (e, text)                  Display of an error value       *)
+(*   context_map (slot, entries, res, post) the context_map! macros          *)
 (* A trace is accepted iff every event is matched: the POSTCONDITION       *)
 (* compares the number of consumed events with the length of the trace and *)
 (* prints the first unmatched event otherwise.                             *)
@@ -107,6 +108,22 @@ EvDeep == /\ IsEvent("deep") /\ E.res.p \in {"val", "err"} /\ UNCHANGED <<ctxs, 
 \* the Display text of an error value (independent of how the error arose)
 EvErrMsg == /\ IsEvent("errmsg") /\ (Modelled(E.e) => ErrorMessage(E.e) = E.text) /\ UNCHANGED <<ctxs, log>>
 
+\* the context_map! / math_consts_context! macros: every entry is applied in order (set_value / set_function), the result is
+\* the first error; entries: sequence of [k: name, f: BOOLEAN (a function), v: value]
+RECURSIVE ApplyEntries(_, _, _, _)
+ApplyEntries(c, es, i, firstErr) ==
+  IF i > Len(es) THEN [ctx |-> c, err |-> firstErr]
+  ELSE IF es[i].f THEN ApplyEntries(SetFunction(c, es[i].k, BehConst(es[i].v)), es, i + 1, firstErr)
+  ELSE LET r == SetValue(c, es[i].k, es[i].v) IN
+       ApplyEntries(r.ctx, es, i + 1, IF firstErr.e = "" /\ ~r.ok THEN r.e ELSE firstErr)
+EvContextMap ==
+  /\ IsEvent("context_map")
+  /\ LET r == ApplyEntries(NewHashMap, E.entries, 1, NoErr) IN
+     /\ ResMatches(IF r.err.e = "" THEN PatVal(VEmpty) ELSE PatErr(r.err), E.res, TRUE)
+     /\ SameVars(r.ctx, E.post)
+     /\ ctxs' = [ctxs EXCEPT ![E.slot] = r.ctx]
+  /\ UNCHANGED log
+
 Simple(name, F(_)) ==
   /\ IsEvent(name)
   /\ SameVars(F(ctxs[E.slot]), E.post)
@@ -135,7 +152,7 @@ EvClone ==
 \* the state after the last matched event is also kept in a TLC register, so that the diagnosis of a rejection can
 \* show what the specification would have allowed
 Track == TLCSet(1, l') /\ TLCSet(2, ctxs')          \* evaluated last: only when every conjunct of the event held
-Next == (EvCtx \/ EvDeep \/ EvErrMsg \/ EvBuild \/ EvEval \/ EvSetValue \/ EvGetValue \/ EvClearVariables \/ EvClearFunctions \/ EvClear
+Next == (EvCtx \/ EvDeep \/ EvErrMsg \/ EvContextMap \/ EvBuild \/ EvEval \/ EvSetValue \/ EvGetValue \/ EvClearVariables \/ EvClearFunctions \/ EvClear
         \/ EvSetFunction \/ EvSetBuiltins \/ EvClone) /\ Track
 
 \* reached position (register 1) = number of events + 1  <=>  every event was matched
